@@ -27,7 +27,7 @@ type Container struct {
 	State   string            `json:"state"`
 	Status  string            `json:"status"`
 	Labels  map[string]string `json:"labels,omitempty"`
-	TSStyle string            `json:"ts_style,omitempty"` // "fixed9" (default) or "trimmed"
+	TSStyle string            `json:"ts_style,omitempty"` // "fixed9" (default), "trimmed" or "offsets"
 	Log     []Record          `json:"log"`
 }
 
@@ -85,8 +85,16 @@ const fixed9Layout = "2006-01-02T15:04:05.000000000Z07:00"
 // FormatTS renders a record timestamp the way the daemon does.
 func (c Container) FormatTS(ns int64) string {
 	t := time.Unix(0, ns).UTC()
-	if c.TSStyle == "trimmed" {
+	switch c.TSStyle {
+	case "trimmed":
 		return t.Format(time.RFC3339Nano)
+	case "offsets":
+		// Numeric UTC offsets that change from record to record (RFC 3339 allows
+		// them; a daemon configured with a local zone crossing a DST change).
+		off := []int{0, 3600, 7200, -5*3600 - 1800}[(ns/1000)%4]
+		if off != 0 {
+			return t.In(time.FixedZone("", off)).Format(fixed9Layout)
+		}
 	}
 	return t.Format(fixed9Layout)
 }
